@@ -219,7 +219,10 @@ class Normaliser(object):
             if o.get('remove_asserts') and isinstance(st, ast.Assert):
                 continue
             if o.get('remove_debug') and isinstance(st, ast.If) and debug_test(st.test, self.env):
-                out.extend(self.items(st.orelse))
+                sub = self.items(st.orelse)
+                if self.lone_zero(sub):
+                    sub = []        # an output that kept the statement holds placeholders in its branches
+                out.extend(sub)
                 continue
             if o.get('combine_imports') and isinstance(st, ast.Import) and len(st.names) > 1:
                 for a in st.names:
